@@ -45,6 +45,10 @@ mod get_providers;
 mod get_record;
 mod target_peers;
 
+#[cfg(litep2p_verif)]
+#[path = "../../../../verif/c15.rs"]
+pub(crate) mod verif_c15;
+
 /// Logging target for the file.
 const LOG_TARGET: &str = "litep2p::ipfs::kademlia::query";
 
